@@ -37,6 +37,7 @@ import (
 	"sort"
 	"strconv"
 	"strings"
+	"sync"
 	"testing"
 	"unicode"
 	"unicode/utf8"
@@ -96,6 +97,12 @@ type Case struct {
 	// After: "fragment", "document" or "both": the case is (also) formatted on a Formatter whose
 	// previous call failed on a too deeply nested fragment / document.
 	After string `json:"after,omitempty"`
+	// Ctor selects the public entry point (see newFormatter).
+	Ctor string `json:"ctor,omitempty"`
+	// Conc: companions formatted at the same time, each in its own goroutine, through FormatString
+	// (ConcVia "string") or through one shared *Formatter (ConcVia "shared").
+	Conc    []Case `json:"conc,omitempty"`
+	ConcVia string `json:"conc_via,omitempty"`
 }
 
 const longTok = "\uF6FF"
@@ -166,8 +173,29 @@ func (c Case) source() string {
 // theRec lets check count inputs that Format refused (never used to decide anything).
 var theRec *ev.Rec
 
-func newFormatter(c Case) *formatter.Formatter {
-	if c.Indent == 0 && !c.NoFinal {
+// fmter is what every public entry point of the formatter package offers.
+type fmter interface {
+	Format(string) (string, error)
+}
+
+type viaFormatString struct{}
+
+func (viaFormatString) Format(s string) (string, error) { return formatter.FormatString(s) }
+
+// newFormatter builds the entry point the case asks for: Ctor "" = NewFormatter (default
+// options) or NewFormatterWithOptions (Indent / NoFinal set), "options" = NewFormatterWithOptions
+// even for the default option set, "flat" = NewFormatterWithOptions{IndentWidth: 0, InsertFinal:
+// true}, "zero" = a zero-value Formatter, "string" = the package function FormatString.
+func newFormatter(c Case) fmter {
+	switch c.Ctor {
+	case "string":
+		return viaFormatString{}
+	case "zero":
+		return new(formatter.Formatter)
+	case "flat":
+		return formatter.NewFormatterWithOptions(formatter.FormatterOptions{IndentWidth: 0, InsertFinal: true})
+	}
+	if c.Ctor == "" && c.Indent == 0 && !c.NoFinal {
 		return formatter.NewFormatter()
 	}
 	o := formatter.DefaultFormatterOptions()
@@ -404,7 +432,71 @@ func check(c Case) error {
 			return fmt.Errorf("on a Formatter whose previous Format call failed (%s): %w", c.After, err)
 		}
 	}
-	return checkWith(c, newFormatter(c))
+	if err := checkWith(c, newFormatter(c)); err != nil {
+		return err
+	}
+	if len(c.Conc) > 0 {
+		return checkConcurrent(c)
+	}
+	return nil
+}
+
+// checkConcurrent formats the case and its companions at the same time, one goroutine per
+// source, several rounds each, through FormatString or through one shared *Formatter. Formatting
+// is a function of the source: every concurrent result must be the result the same source gives
+// when it is formatted alone (which checkWith has already decided).
+func checkConcurrent(c Case) error {
+	srcs := []string{c.source()}
+	for _, k := range c.Conc {
+		srcs = append(srcs, k.expanded().source())
+	}
+	want := make([]string, len(srcs))
+	for i, s := range srcs {
+		o, err := formatter.NewFormatter().Format(s)
+		if err != nil {
+			return nil // Format refuses one of the sources: nothing to compare
+		}
+		want[i] = o
+	}
+	var f fmter = viaFormatString{}
+	if c.ConcVia == "shared" {
+		f = formatter.NewFormatter()
+	}
+	const rounds = 12
+	errs := make([]error, len(srcs))
+	start := make(chan struct{})
+	var wg sync.WaitGroup
+	for i := range srcs {
+		wg.Add(1)
+		go func(i int) {
+			defer wg.Done()
+			defer func() {
+				if r := recover(); r != nil {
+					errs[i] = fmt.Errorf("PANIC in concurrent Format: %v", r)
+				}
+			}()
+			<-start
+			for r := 0; r < rounds; r++ {
+				got, err := f.Format(srcs[i])
+				if err != nil {
+					errs[i] = fmt.Errorf("concurrent Format failed: %v", err)
+					return
+				}
+				if got != want[i] {
+					errs[i] = fmt.Errorf("%s (source %q)", firstDiff(want[i], got), short(srcs[i]))
+					return
+				}
+			}
+		}(i)
+	}
+	close(start)
+	wg.Wait()
+	for i, e := range errs {
+		if e != nil {
+			return fmt.Errorf("formatting %d sources at the same time via %s: the result for source %d differs from its result when formatted alone: %v", len(srcs), map[bool]string{true: "one shared *Formatter", false: "FormatString"}[c.ConcVia == "shared"], i, e)
+		}
+	}
+	return nil
 }
 
 // Format can refuse one kind of input: markup nested deeper than the HTML parser's limit of 512
@@ -418,7 +510,7 @@ var (
 // failBefore makes f fail: after = "fragment" (front matter + too deep fragment), "document"
 // (doctype + too deep document) or "both". That the call fails is not part of the statement:
 // it is counted, not asserted.
-func failBefore(f *formatter.Formatter, after string) {
+func failBefore(f fmter, after string) {
 	var inputs []string
 	switch after {
 	case "fragment":
@@ -441,7 +533,7 @@ func failBefore(f *formatter.Formatter, after string) {
 }
 
 // checkWith decides the property for one case on the given Formatter.
-func checkWith(c Case, f *formatter.Formatter) error {
+func checkWith(c Case, f fmter) error {
 	src := c.source()
 	o1, err := f.Format(src)
 	if err != nil {
@@ -841,6 +933,17 @@ func classify(c Case) (bool, []string) {
 	if c.After != "" {
 		add("after-failure:" + c.After)
 	}
+	switch {
+	case c.Ctor != "":
+		add("entry:" + c.Ctor)
+	case c.Indent == 0 && !c.NoFinal:
+		add("entry:NewFormatter")
+	default:
+		add("entry:NewFormatterWithOptions")
+	}
+	if len(c.Conc) > 0 {
+		add("concurrent:" + c.ConcVia)
+	}
 	if c.Long > 0 && strings.Contains(c.Body, longTok) {
 		add(fmt.Sprintf("long-line:%d", c.Long))
 	}
@@ -1078,6 +1181,7 @@ func TestProp(t *testing.T) {
 			continue
 		}
 		c.After = []string{"", "fragment", "document", "both"}[i%4]
+		c.Ctor = []string{"", "string", "options", "zero", "flat"}[(i/4)%5]
 		nt, cls := classify(c)
 		run.Each(rec, "corpus", c, nt, cls, check)
 		done++
